@@ -213,7 +213,9 @@ def _run_open(res, p):
         if not ok:
             res.violations.append({'key': f'{pitlib.prog_id(spec)}|open|continuous!=discrete|{n}', 'spec': spec, 'observable': 'open', 'metric': n, 'mode': 'open', 'full': True, 'masks': {},
                                    'what': f'{pitlib.prog_id(spec)}: at open masks continuous {n}={out[False][n]} but discrete={out[True][n]}'})
-        if n in ind:
+        if n in ind and not spec.get('pit', {}).get('fold_bn'):
+            # (with fold_bn the reference is the BatchNorm-folded original: a bias-free layer followed by a BatchNorm gains a bias; that case is
+            # covered by the from-scratch comparison with the exported network above)
             ok = abs(out[True][n] - ind[n]) <= 1e-6 * max(1, ind[n])
             if selftest:
                 ok = False
@@ -224,6 +226,14 @@ def _run_open(res, p):
     # symbolic: for EVERY parameter vector whose binarised masks are all open, the continuous cost term ... is only required to
     # equal the discrete one at theta == 1; here: all parameters symbolic with |p| == 1 (sign arbitrary): continuous == discrete == original
     pit, model, shape = pitlib.make_pit(spec, wseed, cost=cost, full_cost=True, discrete_cost=False)
+
+    n_mask = sum(p_.numel() for _, _, _, p_ in pitlib.mask_params(pit))
+    if n_mask > 14:
+        # 2^n sign patterns: the sign symmetry theta(m) = theta(-m) is proved per masker in C12; skipped here for large programs
+        res.notes.append(f'{pitlib.prog_id(spec)}: sign-pattern clause skipped ({n_mask} mask elements), see C12 masker symmetry')
+        res.sample({'program': pitlib.prog_id(spec), 'open_masks': out, 'original_counts': ind})
+        res.paths = max(res.paths, 1)
+        return res
 
     def fn(ex):
         pairs, sy = pitlib.fresh_masks(pit)
